@@ -1098,6 +1098,19 @@ fn main() {
         let wal = (args.shard + fi) % 2 == 0;
         let mut ex = Explorer { r: &mut r, cap_sites: 0, cap_steps: 0 };
         let (n_crash, n_rw, n_ops) = if thorough { (10, 12, 8) } else { (3, 4, 3) };
+        // Reader/writer interleavings with writers that certainly change what the summary reads
+        // (scan / truncate): WAL mode, where a writer can commit in the middle of a read.
+        {
+            let p = sc.cx.prefix;
+            let focus = [OpKind::Scan { from: p + 1, limit: 3 }, OpKind::Truncate(p - 2), OpKind::TruncateToChainState(p - 3)];
+            let n_focus = if thorough { 40 } else { 9 };
+            for op in focus.iter().filter(|o| only_op.as_deref().map_or(true, |n| o.name() == n)) {
+                if !ex.r.time_left() {
+                    break;
+                }
+                ex.explore_reader_writer(&args, idx, &mut sc, op, &mut rng, n_focus, true);
+            }
+        }
         for op in ops.iter().filter(|o| only_op.as_deref().map_or(true, |n| o.name() == n)).take(n_ops) {
             if !ex.r.time_left() {
                 break;
